@@ -34,6 +34,7 @@ func main() {
 	dump := flag.String("dump", "", "debug: print SSA of pkg:Func (e.g. internal/stream:StreamProcessor.ReadPacket)")
 	mutant := flag.String("mutant", "", "internal: run the property's rules on one named mutant overlay and print fired keys")
 	list := flag.Bool("list", false, "list properties")
+	overlayFlag := flag.String("overlay", "", "development: comma-separated repoFile=replacementFile pairs analysed instead of the files on disk (mutation sweeps); never used by registered commands")
 	flag.Parse()
 
 	if *list {
@@ -66,6 +67,46 @@ func main() {
 			g.WriteTo(os.Stdout)
 		}
 		return
+	}
+	if *overlayFlag != "" || strings.Contains(*prop, ",") {
+		// development mode: one load, several properties, optional overlay; quick rules only
+		ov := map[string][]byte{}
+		for _, kv := range strings.Split(*overlayFlag, ",") {
+			if i := strings.Index(kv, "="); i > 0 {
+				b, err := os.ReadFile(kv[i+1:])
+				if err != nil {
+					fmt.Println("BROKEN:", err)
+					os.Exit(2)
+				}
+				ov[kv[:i]] = b
+			}
+		}
+		p, err := Load(*repo, ov)
+		if err != nil {
+			fmt.Printf("BROKEN: %v\n", err)
+			os.Exit(2)
+		}
+		worst := 0
+		for _, id := range strings.Split(*prop, ",") {
+			pc := registry[id]
+			if pc == nil {
+				continue
+			}
+			r := NewReport(pc.ID, "quick", p)
+			r.explanation = pc.Explanation
+			func() {
+				defer func() {
+					if e := recover(); e != nil {
+						r.Broken("panic in rules: %v", e)
+					}
+				}()
+				pc.Run(r)
+			}()
+			if c := r.Finish(*verif, 0); c > worst {
+				worst = c
+			}
+		}
+		os.Exit(worst)
 	}
 	pc := registry[*prop]
 	if pc == nil {
